@@ -15,7 +15,10 @@ CFG = cfg('C18', refine=['Refine_fingerprint'], extract='Ex_C18', driver='c18',
                'algorithm ids without a material class (21, 0): public packets keep fingerprint and export octets under copy.copy / export+import / PGPKey copy, pubkey, re-import; '
                'private packets: pubkey() and PGPKey.pubkey must refuse with NotImplementedError (model: pubkey_pkt = None) and leave the packet unchanged; '
                'secret packets whose secret part is written by the model encoder (S2K usage 255 / 254 for DSA, ElGamal, RSA, EC; GNU stubs incl. smartcard with empty serial): '
-               'fields read = fields encoded, re-emitted octets equal, fingerprint = public packet\'s. distinct = distinct canonical (suite, model input)',
+               'fields read = fields encoded, re-emitted octets equal, fingerprint = public packet\'s; the legacy form (usage octet = cipher id, IV only) likewise; '
+               'key packets of another producer with loose MPIs (declared bit count covering leading zero bits / 1 / 3 zero octets; RSA, DSA, ElGamal; public and secret; all integers / one integer): '
+               'fingerprint = SHA-1(0x99 || len || public body AS EXPORTED) for packet, copy, pubkey() twin, export+import, PGPKey load / copy / re-import / pubkey, model parser reads the loose body to the same fields; '
+               'opaque private packets written back as received (copy, export+import). distinct = distinct canonical (suite, model input)',
           trusted=['Spec/Rfc4880_keys.v (RFC 4880 3.2 / 5.5.2 / 12.2, RFC 6637 6 / 9 / 11 transcription)',
                    'hashlib SHA-1 (primitive oracle; the same library PGPy calls)'],
           assumptions=['SHA-1 is a universally quantified function in the theorems (20 well-formed octets where the key id is concerned); hashing by '
@@ -30,7 +33,7 @@ TEXT = ('Rocq theorems (Props/C18.v, closed under the global context): publen() 
         'algorithm and public material only; along every op list of protect / unlock / lock / pubkey / copy / export+import no step refuses a key of a supported algorithm and the fingerprint is invariant (induction, '
         'uses the parse-after-emit theorem); pubkey() is partial (refuses exactly private packets with opaque material) and EVERY twin it produces has the key\'s fingerprint (no exception for opaque material); key id = low 64 bits; emitted Issuer / IssuerFingerprint / PKESK fields read back as the id. Outside the '
         'premises: public keys of algorithm ids without a material class get the RFC value (theorem; the code before repair e03112d, publen 0, is refuted and '
-        'characterised) and pass unchanged through every history; private ones are characterised (whole stored material hashed, pubkey() refuses; the total pubkey() and the lossy copy before repair 3c1c8c6 are kept as '
+        'characterised) and pass unchanged through every history; private ones are characterised (whole stored material hashed, pubkey() refuses, written back as received - the composition with a secret tail after the opaque octets, keymaterial_bytes_old, is refuted; the secret tail follows String2Key.__bool__ = usage != 0, the 254/255-only rule sec_tail_old is refuted on a cipher-id usage octet; the total pubkey() and the lossy copy before repair 3c1c8c6 are kept as '
         'pubkey_pkt_old / copy_pkt_old and refuted: empty twin, other fingerprint); bodies >= 65536 octets characterised. Tie: extracted '
         'model with hashlib as SHA-1 oracle is an independent fingerprint calculator and key-packet encoder run against PGPy; source of the two anchored '
         'methods pinned.',
